@@ -773,6 +773,172 @@ theorem C13_ntp_request_end_to_end (w : World) (side : Side) (u v : Nat) (t : Op
           beq_self_eq_true, Bool.true_and] <;>
         simp [dget_dset, hcl]
 
+/-! ### the transport terminates -/
+
+theorem recvCalls_length_le (n : Node) (port proto : Nat) (scan : Bool) :
+    (recvCalls n port proto scan).length ≤ n.software.length + 1 := by
+  unfold recvCalls receivePath
+  cases scan
+  · simp only [Bool.false_eq_true, if_false, List.length_map, List.length_append, List.append_nil]
+    have h2 : ∀ mr : Option SwView, ((softwareValues n).filter fun software =>
+        software.listen.contains port && (some software != mr)).length ≤ n.software.length := fun mr =>
+      Nat.le_trans (List.length_filter_le _ _) (by unfold softwareValues; exact List.length_filterMap_le _ _)
+    cases hm : portMapGet n (port, proto) with
+    | none => have := h2 none; simp only [List.length_nil]; omega
+    | some x => have := h2 (some x); simp only [List.length_cons, List.length_nil]; omega
+  · simp only [if_true, List.append_nil, List.length_map]
+    cases softwareGet n "nmap" <;> simp
+
+/-- what one `receive` call can put on the wire: nothing for a payload that carries a reply, at most one reply otherwise;
+a payload that carries a reply is left as it is, any other payload stays what it was or becomes a reply -/
+theorem recvAt_sends (nn : NetNode) (u port proto : Nat) (p : Payload) :
+    (p.isReply = true → (nn.recvAt u port proto p).2.2.1 = [] ∧ (nn.recvAt u port proto p).2.2.2 = p) ∧
+    (nn.recvAt u port proto p).2.2.1.length ≤ 1 ∧
+    (∀ s ∈ (nn.recvAt u port proto p).2.2.1, s.payload.isReply = true) ∧
+    ((nn.recvAt u port proto p).2.2.2 = p ∨ (nn.recvAt u port proto p).2.2.2.isReply = true) := by
+  unfold NetNode.recvAt
+  cases hd : dget u nn.data with
+  | none => simp
+  | some d =>
+    simp only
+    cases hc : nn.n.handles u
+    · simp [C13_receive_blocked]
+    · cases p with
+      | junk => cases d <;> simp [Data.receive, Payload.isReply]
+      | portScan => cases d <;> simp [Data.receive, Payload.isReply]
+      | dns name r =>
+        cases r with
+        | none => cases d <;> simp [Data.receive, Payload.isReply]
+        | some o => cases d <;> cases o <;> simp [Data.receive, Payload.isReply]
+      | ntp r =>
+        cases r with
+        | none => cases d <;> simp [Data.receive, Payload.isReply]
+        | some t => cases d <;> simp [Data.receive, Payload.isReply]
+
+/-- cost of one `receive` call still to be made with payload `p`: the call itself, and — unless `p` carries a reply, which is
+never answered — one reply on the wire (`K + 2`: the frame, at most `K` `receive` calls for it, the end of that delivery) -/
+def callCost (K : Nat) (p : Payload) : Nat := if p.isReply then 1 else K + 3
+
+def itemCost (K : Nat) : World.Item → Nat
+  | .tx _ s => 2 + K * callCost K s.payload
+  | .rx _ calls _ _ p => 1 + calls.length * callCost K p
+
+def stackCost (K : Nat) : List World.Item → Nat
+  | [] => 0
+  | i :: t => itemCost K i + stackCost K t
+
+theorem stackCost_append (K : Nat) (l1 l2 : List World.Item) : stackCost K (l1 ++ l2) = stackCost K l1 + stackCost K l2 := by
+  induction l1 with
+  | nil => simp [stackCost]
+  | cons a t ih => simp [stackCost, ih, Nat.add_assoc]
+
+theorem callCost_le (K : Nat) (p : Payload) : callCost K p ≤ K + 3 := by
+  unfold callCost; split <;> omega
+
+theorem callCost_pos (K : Nat) (p : Payload) : 1 ≤ callCost K p := by
+  unfold callCost; split <;> omega
+
+/-- every delivery on either node has at most `K` receivers -/
+def Small (K : Nat) (w : World) : Prop := w.a.n.software.length + 1 ≤ K ∧ w.b.n.software.length + 1 ≤ K
+
+/-- **The transport terminates.**  With at most `K - 1` programs installed per node, any stack of pending frames and
+`receive` calls is worked off within `stackCost K` steps: `run` does not run out of fuel.  (Each step lowers the cost: a reply
+is never answered, and anything else is answered by at most one reply.) -/
+theorem C13_world_run_terminates (K : Nat) (f : Nat) (w : World) (items : List World.Item) (hs : Small K w)
+    (hf : stackCost K items ≤ f) : (World.run f w items).overflow = w.overflow := by
+  induction f generalizing w items with
+  | zero =>
+    cases items with
+    | nil => rfl
+    | cons i t =>
+      exfalso
+      cases i with
+      | tx side s => simp only [stackCost, itemCost] at hf; omega
+      | rx side calls port proto p => simp only [stackCost, itemCost] at hf; omega
+  | succ f ih =>
+    cases items with
+    | nil => rfl
+    | cons i rest =>
+      cases i with
+      | tx side s =>
+        simp only [stackCost, itemCost] at hf
+        simp only [World.run]
+        split
+        · exact ih w rest hs (by omega)
+        · rename_i tgt _
+          refine ih w _ hs ?_
+          simp only [stackCost, itemCost]
+          have hlen : (recvCalls (w.get tgt).n s.port s.proto s.payload.isScan).length ≤ K := by
+            have := recvCalls_length_le (w.get tgt).n s.port s.proto s.payload.isScan
+            cases tgt
+            · have := hs.1; simp only [World.get] at *; omega
+            · have := hs.2; simp only [World.get] at *; omega
+          have := Nat.mul_le_mul_right (callCost K s.payload) hlen
+          omega
+      | rx side calls port proto p =>
+        cases calls with
+        | nil =>
+          simp only [stackCost, itemCost] at hf
+          simp only [World.run]
+          exact ih w rest hs (by omega)
+        | cons c us =>
+          obtain ⟨u, copy⟩ := c
+          simp only [stackCost, itemCost, List.length_cons] at hf
+          obtain ⟨h1, _, _, _, _, _, _, _⟩ := recvAt_spec (w.get side) u port proto p
+          obtain ⟨r1, r2, r3, _⟩ := recvAt_sends (w.get side) u port proto p
+          rcases hR : (w.get side).recvAt u port proto p with ⟨nn', r, sents, p'⟩
+          simp only [hR] at h1 r1 r2 r3
+          simp only [World.run, hR]
+          have hs' : Small K { w.set side nn' with log := w.log ++ [(side, r)] } := by
+            cases side
+            · exact ⟨by show nn'.n.software.length + 1 ≤ K; rw [h1]; exact hs.1, hs.2⟩
+            · exact ⟨hs.1, by show nn'.n.software.length + 1 ≤ K; rw [h1]; exact hs.2⟩
+          have hov : ({ w.set side nn' with log := w.log ++ [(side, r)] } : World).overflow = w.overflow := by
+            cases side <;> rfl
+          rw [← hov]
+          refine ih _ _ hs' ?_
+          rw [stackCost_append]
+          simp only [stackCost, itemCost]
+          -- the cost of what this call put on the wire
+          have hsent : stackCost K (sents.map (World.Item.tx side)) + 1 ≤ callCost K p ∧
+              callCost K (if copy = true then p else p') ≤ callCost K p := by
+            by_cases hp : p.isReply = true
+            · obtain ⟨e1, e2⟩ := r1 hp
+              subst e1; subst e2
+              simp [stackCost, callCost, hp]
+            · have hcp : callCost K p = K + 3 := by simp [callCost, hp]
+              refine ⟨?_, by rw [hcp]; exact callCost_le K _⟩
+              rw [hcp]
+              cases sents with
+              | nil => simp [stackCost]
+              | cons s t =>
+                have ht : t = [] := by
+                  simp only [List.length_cons] at r2
+                  cases t with
+                  | nil => rfl
+                  | cons _ _ => simp at r2
+                subst ht
+                have hr : s.payload.isReply = true := r3 s (by simp)
+                simp [stackCost, itemCost, callCost, hr]
+                omega
+          have hm := Nat.mul_le_mul_left us.length hsent.2
+          have hexp : (us.length + 1) * callCost K p = us.length * callCost K p + callCost K p := by
+            rw [Nat.add_mul, Nat.one_mul]
+          omega
+
+/-- in particular a single payload put on the wire by `send`, with everything it triggers, is worked off within
+`2 + K * (K + 3)` steps -/
+theorem C13_send_terminates (K : Nat) (w : World) (hs : Small K w) (side : Side) (u ip port proto : Nat) (p : Payload)
+    (hfuel : 2 + K * (K + 3) ≤ World.fuel) : (w.send side u ip port proto p).overflow = w.overflow := by
+  unfold World.send
+  refine C13_world_run_terminates K _ w _ hs ?_
+  simp only [stackCost, itemCost]
+  have := Nat.mul_le_mul_left K (callCost_le K p)
+  omega
+
+/-- non-vacuity: the two-node world of the DNS example is `Small 4`, and `2 + 4 * 7 ≤ fuel` -/
+example : 2 + 4 * (4 + 3) ≤ World.fuel := by decide
+
 /-! ## 5. connection bookkeeping -/
 
 /-- **Health becomes OVERWHELMED exactly when a connection is requested at capacity**: after `add_connection`, the health is
